@@ -214,7 +214,15 @@ func sanitize(s string) string {
 
 type Rng struct{ s uint64 }
 
-func NewRng(seed uint64) *Rng { return &Rng{s: seed*0x9E3779B97F4A7C15 + 0x1234567} }
+// NewRng: the state is a hash of the seed, so that consecutive seeds give unrelated streams
+// (seed*golden + c would make NewRng(s+1) the stream of NewRng(s) shifted by one draw).
+func NewRng(seed uint64) *Rng {
+	z := seed + 0x632BE59BD9B4E019
+	z = (z ^ (z >> 30)) * 0xBF58476D1CE4E5B9
+	z = (z ^ (z >> 27)) * 0x94D049BB133111EB
+	z ^= z >> 31
+	return &Rng{s: z ^ 0x1234567}
+}
 func (r *Rng) Next() uint64 {
 	r.s += 0x9E3779B97F4A7C15
 	z := r.s
